@@ -301,6 +301,24 @@ func pipelineCorpus() []*Prog {
 		add(x86.ADDQ(reg.RDX, reg.RAX))
 		add(x86.RET())
 	})
+	mk("blocks laid out against execution order; a register first seen narrow, then wide (two backward jumps in a row)", func(c *reg.Collection, add func(*ir.Instruction, error), lbl func(string)) {
+		ptr, x, y := c.GP64(), c.GP64(), c.GP64()
+		add(x86.MOVQ(operand.U32(4096), ptr))
+		add(x86.JMP(operand.LabelRef("start")))
+		lbl("done")
+		add(x86.MOVB(x.As8(), operand.Mem{Base: ptr}))
+		add(x86.MOVQ(x, operand.Mem{Base: ptr, Disp: 8}))
+		add(x86.RET())
+		lbl("mid")
+		add(x86.MOVB(x.As8(), operand.Mem{Base: ptr, Disp: 1}))
+		add(x86.JMP(operand.LabelRef("done")))
+		lbl("start")
+		add(x86.MOVQ(operand.U32(1), x))
+		add(x86.MOVQ(operand.U32(2), y))
+		add(x86.MOVQ(y, operand.Mem{Base: ptr, Disp: 16}))
+		add(x86.MOVB(operand.U8(7), x.As8()))
+		add(x86.JMP(operand.LabelRef("mid")))
+	})
 	mk("32-bit self-move after binding (MOVL v,v)", func(c *reg.Collection, add func(*ir.Instruction, error), lbl func(string)) {
 		a := c.GP64()
 		add(x86.MOVQ(operand.I64(-1), a))
